@@ -6,6 +6,7 @@ import json, os, re, shutil, sys
 VERIF = os.path.dirname(os.path.dirname(os.path.abspath(__file__)))
 root, conf, frj, offset, label = sys.argv[1], sys.argv[2], sys.argv[3], int(sys.argv[4]), sys.argv[5]
 first = json.load(open(frj))
+RULES_AT = sys.argv[6] if len(sys.argv) > 6 else "commit 71319c7 (state after round 3)"
 lines = {l.split()[0]: l.strip() for l in open(conf) if l.strip()}
 kept = dropped = 0
 for pid in sorted(os.listdir(root)):
@@ -37,7 +38,7 @@ for pid in sorted(os.listdir(root)):
             "confirmed_by_me": {"how": "tools/confirm_benign.sh: scratch worktree of /repo HEAD under /tmp; demo.py on the clean tree and with patch.diff applied must print byte-identical transcripts; pytest -q -p no:cacheprovider -n 4 --timeout=900 pint/testsuite must pass with the patch; worktree removed",
                                 "result": c},
             "checks": {"how": "tools/benigntest.py: patch applied to a scratch copy of /repo/pint, every rule pack run; exit 0 = silent",
-                       "first_run_before_hardening": {"rules_at": "commit 71319c7 (state after round 3)", "status": fr.get("status"),
+                       "first_run_before_hardening": {"rules_at": RULES_AT, "status": fr.get("status"),
                                                       "alarms": [f"{a['check']}: {r}" for a in fr.get("alarms", []) for r in a["reports"][:2]],
                                                       "inapplicable": [f"{a['check']}: {a['why']}" for a in fr.get("inapplicable", [])]}},
         }
